@@ -267,13 +267,15 @@ Definition bus_hash (b : list busmsg) : Z :=
 Definition bus_val (hashed : bool) (b : list busmsg) : val :=
   if hashed then VZ (bus_hash b) else VL (map (fun m => VB (busmsg_bytes m)) b).
 
-(* per call: result, the frames seen on the bus during the call (COB-ID first), the peer afterwards *)
+(* per call: result, the frames seen on the bus during the call (COB-ID first), the peer afterwards, and
+   "the master's public settings are what they were before the call": no modelled method of LssMaster assigns
+   a class or instance attribute other than self.responses, so this is constantly true in the model *)
 Fixpoint run_ops (hashed : bool) (st : mstate lss_peer) (ops : list lss_op) : list val :=
   match ops with
   | [] => []
   | o :: r =>
       let '(st1, v) := run_op peer_step (mkM (responses st) (pst st) []) o in
-      VL [v; bus_val hashed (bus st1); peer_val (pst st1)] :: run_ops hashed st1 r
+      VL [v; bus_val hashed (bus st1); peer_val (pst st1); VBool true] :: run_ops hashed st1 r
   end.
 
 Inductive lss_case := LssCase (hashed : bool) (p : lss_peer) (ops : list lss_op).
